@@ -169,7 +169,7 @@ func hostileChunks(r *vlib.Run, prefix string, cs []namedSource, div int) []host
 
 	// 2. truncations at every byte offset.
 	{
-		rng := r.Rng(prefix+"/trunc-select")
+		rng := r.Rng(prefix + "/trunc-select")
 		var small, large []int
 		limit := r.N(3000, 12000)
 		for i, c := range cs {
@@ -212,7 +212,7 @@ func hostileChunks(r *vlib.Run, prefix string, cs []namedSource, div int) []host
 		for _, fi := range large {
 			c := cs[fi]
 			add(fmt.Sprintf(prefix+"/trunc-sampled/%s", c.Name), func() []hostileCase {
-				rg := r.Rng(prefix+"/trunc-sampled/" + c.Name)
+				rg := r.Rng(prefix + "/trunc-sampled/" + c.Name)
 				var out []hostileCase
 				for k := 0; k < nOff; k++ {
 					off := rg.Intn(len(c.Text) + 1)
@@ -381,7 +381,7 @@ func hostileChunks(r *vlib.Run, prefix string, cs []namedSource, div int) []host
 		add(prefix+"/extra/"+src.Name, func() []hostileCase {
 			var out []hostileCase
 			for _, s := range src.Gen(r.Rng(prefix+"/extra/"+src.Name), r.N(200, 2000)) {
-				out = append(out, hostileCase{prefix+"/extra/" + src.Name + "/" + s.Name, "extra", s.Text})
+				out = append(out, hostileCase{prefix + "/extra/" + src.Name + "/" + s.Name, "extra", s.Text})
 			}
 			return out
 		})
